@@ -71,6 +71,10 @@ fn c03_sum(v: &[Val]) -> Result<bool, String> {
     for (i, x) in all.iter().enumerate() {
         if !same_angle(&s, x) { return Err(format!("spelling #{} gives {} instead of {}", i, show_a(x), show_a(&s))); }
     }
+    // both borrows pointing at one object (`&a + &a`): same result as with a copy
+    { let r = &a; let c = a;
+      if !same_angle(&(r + r), &(a + c)) || !same_angle(&(r * r), &(a + c)) { return Err(format!("&a + &a (one object borrowed twice) differs from a + copy(a) for a = {}", show_a(&a))); }
+      if !same_angle(&(r - r), &(a - c)) || !same_angle(&(r / r), &(a - c)) { return Err(format!("&a - &a (one object borrowed twice) differs from a - copy(a) for a = {}", show_a(&a))); } }
     Ok(a.rem() != 0.0 || b.rem() != 0.0)
 }
 fn c03_identity(v: &[Val]) -> Result<bool, String> {
